@@ -859,6 +859,10 @@ theorem sequential_history_invariant (C : Crypto) (cfg : Config) (hsc : SignCorr
       have : (addOp n w (.del k)).1.cfg = n.cfg ∧ (addOp n w (.del k)).1.chain = n.chain := by
         unfold addOp; (repeat' split) <;> exact ⟨rfl, rfl⟩
       simp only [stepOp, this.1, this.2]; exact ⟨hcfg, hinv, hdata⟩
+    | cas w k e v =>
+      have : (addOp n w (.cas k e v)).1.cfg = n.cfg ∧ (addOp n w (.cas k e v)).1.chain = n.chain := by
+        unfold addOp; (repeat' split) <;> exact ⟨rfl, rfl⟩
+      simp only [stepOp, this.1, this.2]; exact ⟨hcfg, hinv, hdata⟩
     | dir w d => exact ⟨hcfg, hinv, hdata⟩
     | commit w ts =>
       simp only [stepOp]
